@@ -3,6 +3,7 @@ from __future__ import annotations
 
 import numpy as np
 
+from .. import refmath
 from .. import smc_common as sc
 
 ID = "C07"
@@ -21,7 +22,7 @@ RULE = (
 )
 ASSUMPTIONS = [
     "ESS(b) is monotone non-increasing in b, so the feasible set is an interval (used to state maximality at beta_t + tol only)",
-    "reference ESS in float64 with relative slack 64*N*eps(width); float32 populations have |log w| <= 10",
+    "reference ESS in float64 with relative slack 64*N*eps(width) + 64*eps*(max|incremental log w|+1); float32 populations have |log w| <= 10",
     "a step no larger than beta_tolerance above the previous temperature is accepted as resolution-limited (the search "
     "cannot resolve feasibility below its tolerance); see DESIGN.md C07",
     "kernel packages are harness doubles; populations are read from history.sample_history",
@@ -54,6 +55,10 @@ def run_case(case, ctx):
         tau = sc.target_at(case, prev)
         step = b - prev
         eff = sc.ess_at(lw, prev, b) / n
+        inc_ = sc.incr(lw, prev, b)
+        fin_ = inc_[np.isfinite(inc_)]
+        # rounding of incremental log-weights of magnitude M perturbs the ESS by ~eps*M relative
+        rt = sc.ess_rtol(case) + 64 * refmath.eps_of(case["width"]) * ((float(np.max(np.abs(fin_))) if len(fin_) else 0.0) + 1)
         forced = False
         if "min_step" in case:
             ms = case["min_step"]
